@@ -28,14 +28,13 @@ EXPLANATION = (
     "summed sinusoids. (D3) free-algebra check of every SquareMatrices.apply_symmetry branch (S(W) = +-W for S = "
     "transpose / conj-transpose, diag(diag(.)) idempotent), traceless step has trace 0, make_det_one scales by "
     "det**(1/dimension) with the right sign, normalize multiplies by desired/actual norm with the norm drawn from "
-    "config['norm'], GeneralMatrices upper->triu / lower->tril, array draw uses config['shape'] with an imaginary part "
+    "config['norm'], make_det_zero subtracts an eigenvalue of the array times the identity, GeneralMatrices upper->triu / lower->tril, array draw uses config['shape'] with an imaginary part "
     "iff complex, MathArray wrapping, identity multiples, square shape. (D4) exhaustive enumeration of symmetry x "
     "complex x traceless x determinant x dimension class: the constructor rejects exactly the combinations of the "
     "fixed table, hermitian/antihermitian force complex, make_det_one's assert never fails and its final raise is "
     "unreachable, normalize dispatches on determinant. (D5) the retry loop is bounded, catches only Retry and raises "
     "after the last attempt.")
-NOT_DECIDED = ("numerical precision of determinant/trace/eigenvalue computations (make_det_zero's eigenvalue selection is "
-               "not analysed beyond its dispatch), success probability of the retry loop, distributional properties, "
+NOT_DECIDED = ("numerical precision of determinant/trace/eigenvalue computations (that make_det_zero's chosen eigenvalue is numerically an eigenvalue), success probability of the retry loop, distributional properties, "
                "orthogonal/unitary samplers (scipy), student inputs to random functions are assumed real.")
 ASSUMPTIONS = ["numpy/random primitives follow the model table in sa/absint.py (rand/random_sample in [0,1), randint(l,h) in "
                "[l,h-1] and raising for l >= h, random.choice returns a member, |sin| <= 1 attained, |exp(i*t)| = 1, "
@@ -48,11 +47,13 @@ M = 'mitxgraders.matrixsampling.'
 
 def check(ctx):
     idx = ctx.index
+    ai.reset_budget()
     d1_intervals(ctx, idx)
     d1_complex(ctx, idx)
     d1_choice(ctx, idx)
     d2_random_function(ctx, idx)
     mx.d3_matrices(ctx, idx)
+    mx.d3_det_zero(ctx, idx)
     mx.d4_enum(ctx, idx)
     mx.d5_retry(ctx, idx)
 
@@ -460,9 +461,10 @@ def d2_random_function(ctx, idx):
                                expected='all np.random draws outside the returned function')
             else:
                 outer_draws = _random_calls(fi.node, idx, fi.module)
-                r_fx.check(len(outer_draws) >= 3, 'random_function', '%d draws, all in gen_sample before the function is built' % len(outer_draws),
-                           'fewer than three coefficient arrays are drawn at random (%d): amplitude, frequency or phase is not random'
-                           % len(outer_draws), fi.loc)
+                if outer_draws:
+                    r_fx.ok('random_function', '%d draws, all in gen_sample before the function is built' % len(outer_draws), fi.loc)
+                else:
+                    r_fx.undecided('random_function', 'no random draw found in gen_sample', fi.loc)
 
     for rule in (r_sh, r_bd):
         with rule:
@@ -559,10 +561,14 @@ def _bound(r, label, inner, q, facts, subst):
                 break
         if found and v.exact:
             asg, b = found
-            r.violation(construct, 'the exact bound of |f - center| is %s, not amplitude: %d sinusoid terms of magnitude up to 1 are '
-                        'summed per output but the sum is not divided by that number; e.g. %s gives |f - center| up to %s > amplitude'
-                        % (v.bound.text(), 0 if 'num_terms' not in asg else int(asg.get('num_terms', 1) * asg.get('input_dim', 1)),
-                           ', '.join('%s=%s' % (k, _f(x)) for k, x in sorted(asg.items())), _f(b)),
+            ratio = v.bound / amp
+            hint = ''
+            if ratio == Rat.sym('input_dim'):
+                hint = (' (num_terms * input_dim sinusoids of magnitude up to 1 are summed for every output, but the sum is divided by '
+                        'num_terms only)')
+            r.violation(construct, 'the exact bound of |f - center| is %s, not amplitude%s; e.g. %s allows |f - center| up to %s > amplitude. '
+                        'Values are declared to stay within center +/- amplitude' % (
+                            v.bound.text(), hint, ', '.join('%s=%s' % (k, _f(x)) for k, x in sorted(asg.items())), _f(b)),
                         where, expected='|f - center| <= amplitude', found='|f - center| <= %s' % v.bound.text())
         else:
             r.undecided(construct, 'cannot prove %s <= amplitude and the bound is not exact' % v.bound.text(), where)
@@ -593,3 +599,116 @@ def _value(rat, asg):
 def _f(v):
     v = Fraction(v)
     return str(v.numerator) if v.denominator == 1 else '%.4g' % float(v)
+
+
+# ------------------------------------------------------------------------ self-test
+_INT_CTOR = "        super(IntegerRange, self).__init__(config, **kwargs)\n        if self.config['start'] > self.config['stop']:\n            self.config['start'], self.config['stop'] = self.config['stop'], self.config['start']\n"
+_REAL_CTOR = "        super(RealInterval, self).__init__(config, **kwargs)\n        if self.config['start'] > self.config['stop']:\n            self.config['start'], self.config['stop'] = self.config['stop'], self.config['start']\n"
+_ARITY = "            if len(args) != input_dim:\n                msg = \"Expected {} arguments, but received {}\".format(input_dim, len(args))\n                raise ConfigError(msg)\n"
+_ODD_ANTISYM = ("                if self.config['symmetry'] == 'antisymmetric':\n"
+                "                    # Eigenvalues are all imaginary, so determinant is imaginary\n"
+                "                    raise ConfigError(\"No unit-determinant antisymmetric matrix exists in odd dimensions\")\n")
+_HERM_2X2 = ("                elif self.config['symmetry'] == 'hermitian':\n"
+             "                    raise ConfigError(\"No traceless, unit-determinant, Hermitian 2x2 matrix exists\")\n")
+_TL_DET0 = ("            if self.config['traceless']:\n"
+            "                raise ConfigError(\"Unable to generate zero determinant traceless matrices\")\n")
+_CACHE_OLD = '        self.norm = RealInterval(self.config[\'norm\'])\n\n    def gen_sample(self):\n        """\n        Generates an array sample and returns it as a MathArray.\n\n        This calls generate_sample, which is the routine that should be subclassed if\n        needed, rather than this one.\n        """\n        array = self.generate_sample()\n        return MathArray(array)\n\n    def generate_sample(self):\n        """\n        Generates a random array of shape and norm determined by config. After\n        generation, the apply_symmetry and normalize functions are applied to the result.\n        These functions may be shadowed by a subclass.\n\n        If apply_symmetry or normalize raise the Retry exception, a new sample is\n        generated, and the procedure starts anew.\n\n        Returns a numpy array.\n        """\n        # Loop until a good sample is found\n        loops = 0\n        while loops < 100:\n            loops += 1\n\n            # Construct an array with entries in [-0.5, 0.5)\n            array = np.random.random_sample(self.config[\'shape\']) - 0.5\n            # Make the array complex if needed\n            if self.config[\'complex\']:\n                imarray'
+_CACHE_NEW = '        self.norm = RealInterval(self.config[\'norm\'])\n        self.complex = self.config[\'complex\']\n\n    def gen_sample(self):\n        """\n        Generates an array sample and returns it as a MathArray.\n\n        This calls generate_sample, which is the routine that should be subclassed if\n        needed, rather than this one.\n        """\n        array = self.generate_sample()\n        return MathArray(array)\n\n    def generate_sample(self):\n        """\n        Generates a random array of shape and norm determined by config. After\n        generation, the apply_symmetry and normalize functions are applied to the result.\n        These functions may be shadowed by a subclass.\n\n        If apply_symmetry or normalize raise the Retry exception, a new sample is\n        generated, and the procedure starts anew.\n\n        Returns a numpy array.\n        """\n        # Loop until a good sample is found\n        loops = 0\n        while loops < 100:\n            loops += 1\n\n            # Construct an array with entries in [-0.5, 0.5)\n            array = np.random.random_sample(self.config[\'shape\']) - 0.5\n            # Make the array complex if needed\n            if self.complex:\n                imarray'
+_LOOP_HEAD = "        loops = 0\n        while loops < 100:\n            loops += 1\n"
+
+MUTANTS = [
+    # D1
+    Mutant('int-high-is-stop', SAMPLING, "high=self.config['stop'] + 1", "high=self.config['stop']", 'D1'),
+    Mutant('int-low-plus-one', SAMPLING, "low=self.config['start'],", "low=self.config['start'] + 1,", 'D1'),
+    Mutant('int-swap-removed', SAMPLING, _INT_CTOR, "        super(IntegerRange, self).__init__(config, **kwargs)\n", 'D1'),
+    Mutant('int-swap-inverted', SAMPLING, "super(IntegerRange, self).__init__(config, **kwargs)\n        if self.config['start'] > self.config['stop']:",
+           "super(IntegerRange, self).__init__(config, **kwargs)\n        if self.config['start'] < self.config['stop']:", 'D1'),
+    Mutant('int-swap-loses-bound', SAMPLING, _INT_CTOR, _INT_CTOR.replace("= self.config['stop'], self.config['start']", "= self.config['stop'], self.config['stop']"), 'D1'),
+    Mutant('real-swap-loses-bound', SAMPLING, _REAL_CTOR, _REAL_CTOR.replace("= self.config['stop'], self.config['start']", "= self.config['start'], self.config['start']"), 'D1'),
+    Mutant('real-offset-dropped', SAMPLING, "return start + (stop - start) * np.random.random_sample()", "return (stop - start) * np.random.random_sample()", 'D1'),
+    Mutant('real-width-is-stop', SAMPLING, "return start + (stop - start) * np.random.random_sample()", "return start + stop * np.random.random_sample()", 'D1'),
+    Mutant('rectangle-wrong-key', SAMPLING, "self.im = RealInterval(self.config['im'])", "self.im = RealInterval(self.config['re'])", 'D1'),
+    Mutant('rectangle-imaginary-unit-dropped', SAMPLING, "self.im.gen_sample()*1j", "self.im.gen_sample()", 'D1'),
+    Mutant('sector-roles-swapped', SAMPLING, "self.modulus.gen_sample() * np.exp(1j * self.argument.gen_sample())",
+           "self.argument.gen_sample() * np.exp(1j * self.modulus.gen_sample())", 'D1'),
+    Mutant('sector-real-exponential', SAMPLING, "np.exp(1j * self.argument.gen_sample())", "np.exp(self.argument.gen_sample())", 'D1'),
+    Mutant('sector-wrong-key', SAMPLING, "self.argument = RealInterval(self.config['argument'])", "self.argument = RealInterval(self.config['modulus'])", 'D1'),
+    Mutant('discrete-returns-index', SAMPLING, '"""Return a random entry from the given set"""\n        return random.choice(self.config)',
+           '"""Return a random entry from the given set"""\n        return random.choice(range(len(self.config)))', 'D1'),
+    # D2
+    Mutant('rf-divisor-num-terms-only', SAMPLING, '/ (num_terms * input_dim)', '/ num_terms', 'D2'),
+    Mutant('rf-amplitude-not-applied', SAMPLING, 'fullsum = fullsum * self.config["amplitude"] / (num_terms * input_dim)', 'fullsum = fullsum / (num_terms * input_dim)', 'D2'),
+    Mutant('rf-center-not-applied', SAMPLING, '            fullsum += self.config["center"]\n', '', 'D2'),
+    Mutant('rf-center-subtracted', SAMPLING, 'fullsum += self.config["center"]', 'fullsum -= self.config["center"]', 'D2'),
+    Mutant('rf-amplitudes-too-large', SAMPLING, "A = np.random.rand(output_dim, num_terms, input_dim) / 2 + 0.5", "A = np.random.rand(output_dim, num_terms, input_dim) * 2 + 0.5", 'D2'),
+    Mutant('rf-arity-check-dropped', SAMPLING, _ARITY, '', 'D2'),
+    Mutant('rf-arity-check-weakened', SAMPLING, "if len(args) != input_dim:", "if len(args) < input_dim:", 'D2'),
+    Mutant('rf-nin-is-output-dim', SAMPLING, "random_function.nin = input_dim", "random_function.nin = output_dim", 'D2'),
+    Mutant('rf-sum-over-outputs', SAMPLING, "np.sum(np.sum(output, axis=2), axis=1)", "np.sum(np.sum(output, axis=2), axis=0)", 'D2'),
+    Mutant('rf-vector-for-one-output', SAMPLING, "if output_dim > 1 else fullsum[0]", "if output_dim >= 1 else fullsum[0]", 'D2'),
+    Mutant('rf-phase-redrawn-per-call', SAMPLING, "output = A * np.sin(B * xarray + C)", "output = A * np.sin(B * xarray + 2 * np.pi * np.random.rand(output_dim, num_terms, input_dim))", 'D2'),
+    # D3
+    Mutant('symmetric-minus', MATRIX, "working = array + array.transpose()", "working = array - array.transpose()", 'D3'),
+    Mutant('antisymmetric-plus', MATRIX, "working = array - array.transpose()", "working = array + array.transpose()", 'D3'),
+    Mutant('hermitian-without-conj', MATRIX, "working = array + np.conj(array.transpose())", "working = array + array.transpose()", 'D3'),
+    Mutant('antihermitian-plus', MATRIX, "working = array - np.conj(array.transpose())", "working = array + np.conj(array.transpose())", 'D3'),
+    Mutant('diagonal-single-diag', MATRIX, "working = np.diag(np.diag(array))", "working = np.diag(array)", 'D3'),
+    Mutant('traceless-dim-minus-one', MATRIX, "working = working - trace / dim * np.eye(dim)", "working = working - trace / (dim - 1) * np.eye(dim)", 'D3'),
+    Mutant('traceless-not-divided', MATRIX, "working = working - trace / dim * np.eye(dim)", "working = working - trace * np.eye(dim)", 'D3'),
+    Mutant('det-one-square-root', MATRIX, "return array / np.power(det, 1/self.config['dimension'])", "return array / np.power(det, 1/2)", 'D3'),
+    Mutant('det-one-sign-fix-dropped', MATRIX, "return - array / np.power(-det, 1/self.config['dimension'])", "return array / np.power(-det, 1/self.config['dimension'])", 'D3'),
+    Mutant('det-one-complex-exponent', MATRIX, "np.power(det + 0.0j, 1/self.config['dimension'])", "np.power(det + 0.0j, 1/(self.config['dimension'] - 1))", 'D3'),
+    Mutant('normalize-inverted', MATRIX, "return array * desired_norm / actual_norm", "return array * actual_norm / desired_norm", 'D3'),
+    Mutant('normalize-not-divided', MATRIX, "return array * desired_norm / actual_norm", "return array * desired_norm", 'D3'),
+    Mutant('triangles-swapped', MATRIX, "            return np.triu(array)\n        elif self.config['triangular'] == 'lower':\n            return np.tril(array)",
+           "            return np.tril(array)\n        elif self.config['triangular'] == 'lower':\n            return np.triu(array)", 'D3'),
+    Mutant('complex-flag-negated', MATRIX, "            if self.config['complex']:\n                imarray", "            if not self.config['complex']:\n                imarray", 'D3'),
+    Mutant('complex-part-added-as-real', MATRIX, "array = array + 1j*imarray", "array = array + imarray", 'D3'),
+    Mutant('imaginary-part-other-shape', MATRIX, "imarray = np.random.random_sample(self.config['shape']) - 0.5", "imarray = np.random.random_sample(self.config['dimension']) - 0.5", 'D3'),
+    Mutant('sample-not-wrapped', MATRIX, "        array = self.generate_sample()\n        return MathArray(array)", "        array = self.generate_sample()\n        return array", 'D3'),
+    Mutant('normalize-before-symmetry', MATRIX, "                array = self.apply_symmetry(array)\n\n                # Normalize the result\n                array = self.normalize(array)",
+           "                array = self.normalize(array)\n\n                # Normalize the result\n                array = self.apply_symmetry(array)", 'D3'),
+    Mutant('determinant-dispatch-swapped', MATRIX, "        if self.config['determinant'] == 1:\n            # No need to normalize", "        if self.config['determinant'] == 0:\n            # No need to normalize", 'D3'),
+    Mutant('identity-wrong-size', MATRIX, "array = scaling * np.eye(self.config['dimension'])", "array = scaling * np.eye(self.config['dimension'] - 1)", 'D3'),
+    Mutant('det-zero-shift-added', MATRIX, "return array - np.eye(self.config['dimension']) * eigenvalue", "return array + np.eye(self.config['dimension']) * eigenvalue", 'D3'),
+    Mutant('det-zero-antihermitian-sign', MATRIX, "eigenvalue = -1j * np.real(eigenvalues[index])", "eigenvalue = 1j * np.real(eigenvalues[index])", 'D3'),
+    Mutant('det-zero-diagonal-off-diagonal', MATRIX, "array[index, index] = 0", "array[index, 0] = 0", 'D3'),
+    Mutant('det-one-branches-merged-with-abs', MATRIX, "            if det > 0:\n                # This is the easy case: Just scale the determinant\n                return array / np.power(det, 1/self.config['dimension'])\n            elif self.config['dimension'] % 2 == 1 and det < 0:\n                # Odd-dimension matrices can also have their determinant scaled\n                return - array / np.power(-det, 1/self.config['dimension'])\n            else:",
+           "            if det > 0 or (self.config['dimension'] % 2 == 1 and det < 0):\n                # Scale the determinant\n                return array / np.power(np.abs(det), 1/self.config['dimension'])\n            else:", 'D3',
+           note='odd dimension, negative real determinant: array/|det|**(1/n) has determinant -1'),
+    Mutant('complex-flag-cached-before-it-is-forced', MATRIX, _CACHE_OLD, _CACHE_NEW, 'D3',
+           note='ArraySamplingSet.__init__ caches self.complex; SquareMatrices.__init__ forces config[complex]=True afterwards'),
+    # D4
+    Mutant('exclusion-dropped-odd-antisymmetric', MATRIX, _ODD_ANTISYM, '', 'D4'),
+    Mutant('exclusion-dropped-hermitian-2x2', MATRIX, _HERM_2X2, '', 'D4'),
+    Mutant('exclusion-dropped-traceless-det0', MATRIX, _TL_DET0, '', 'D4'),
+    Mutant('exclusion-parity-flipped', MATRIX, "                if self.config['dimension'] % 2 == 0:\n                    raise ConfigError(\"Unable to generate real",
+           "                if self.config['dimension'] % 2 == 1:\n                    raise ConfigError(\"Unable to generate real", 'D4'),
+    Mutant('exclusion-real-complex-flipped', MATRIX, "if self.config['symmetry'] == 'diagonal' and not self.config['complex']:", "if self.config['symmetry'] == 'diagonal' and self.config['complex']:", 'D4'),
+    Mutant('antihermitian-complex-not-forced', MATRIX, "if self.config['symmetry'] in ['hermitian', 'antihermitian']:\n            self.config['complex'] = True",
+           "if self.config['symmetry'] in ['hermitian']:\n            self.config['complex'] = True", 'D4'),
+    Mutant('det-one-branch-misses-antisymmetric', MATRIX, "in [None, 'diagonal', 'symmetric', 'antisymmetric']", "in [None, 'diagonal', 'symmetric']", 'D4'),
+    Mutant('det-one-real-branch-misses-antihermitian', MATRIX, "                or self.config['symmetry'] in ['hermitian', 'antihermitian']):", "                or self.config['symmetry'] in ['hermitian']):", 'D4'),
+    # D5
+    Mutant('retry-catches-everything', MATRIX, "            except Retry:\n                continue", "            except Exception:\n                continue", 'D5'),
+    Mutant('retry-counter-not-advanced', MATRIX, "            loops += 1\n", "", 'D5'),
+    Mutant('retry-unbounded', MATRIX, "        while loops < 100:", "        while True:", 'D5'),
+    Mutant('retry-returns-failed-array', MATRIX, "            except Retry:\n                continue", "            except Retry:\n                return array", 'D5'),
+    Mutant('giving-up-returns', MATRIX, "        raise ValueError('Unable to construct sample for {}'\n                         .format(type(self).__name__))  # pragma: no cover", "        return array", 'D5'),
+]
+
+BENIGN = [
+    Benign('real-formula-from-the-top', SAMPLING, "return start + (stop - start) * np.random.random_sample()", "return stop - (stop - start) * (1 - np.random.random_sample())"),
+    Benign('randint-positional', SAMPLING, "np.random.randint(low=self.config['start'], high=self.config['stop'] + 1)", "np.random.randint(self.config['start'], 1 + self.config['stop'])"),
+    Benign('rf-divisor-reordered', SAMPLING, '/ (num_terms * input_dim)', '/ input_dim / num_terms'),
+    Benign('rf-scale-first', SAMPLING, 'fullsum = fullsum * self.config["amplitude"] / (num_terms * input_dim)', 'fullsum = self.config["amplitude"] / (input_dim * num_terms) * fullsum'),
+    Benign('symmetric-T-attribute', MATRIX, "working = array + array.transpose()", "working = array.T + array"),
+    Benign('traceless-factor-order', MATRIX, "working = working - trace / dim * np.eye(dim)", "working = working - np.eye(dim) * (trace / dim)"),
+    Benign('det-one-float-exponent', MATRIX, "return array / np.power(det, 1/self.config['dimension'])", "return array / np.power(det, 1.0/self.config['dimension'])"),
+    Benign('retry-for-loop', MATRIX, _LOOP_HEAD, "        for _attempt in range(100):\n"),
+    Benign('hermitian-test-with-tuple', MATRIX, "if self.config['symmetry'] in ['hermitian', 'antihermitian']:\n            self.config['complex'] = True",
+           "if self.config['symmetry'] in ('antihermitian', 'hermitian'):\n            self.config['complex'] = True"),
+    Benign('odd-dimension-checks-merged', MATRIX, _ODD_ANTISYM + "                if self.config['symmetry'] == 'antihermitian':\n                    # Eigenvalues are all imaginary, so determinant is imaginary\n                    raise ConfigError(\"No unit-determinant antihermitian matrix exists in odd dimensions\")\n",
+           "                if self.config['symmetry'] in ['antisymmetric', 'antihermitian']:\n                    raise ConfigError(\"No unit-determinant matrix with this symmetry exists in odd dimensions\")\n"),
+    Benign('normalize-scale-factor', MATRIX, "return array * desired_norm / actual_norm", "return (desired_norm / actual_norm) * array"),
+]
